@@ -449,11 +449,31 @@ def gen_c14(env, tier):
 
 def gen_c03_all(env, tier):
     gen_c03(env, tier)
+    gen_twin_dims(env, tier, "C03")
     gen_wide(env, tier, "C03")
+
+
+def gen_twin_dims(env, tier, prop):
+    """the same index object (array object) in two or three positions of one cube's dimension list: the cube of a
+    variable against itself (cells off the diagonal hold no row), next to an independent dimension"""
+    rnd, gen = env.rnd, env.gen
+    for _ in range(40 if tier == "quick" else 700):
+        func = rnd.choice(cb.SHARED) if prop != "C02" else "count"
+        base = gen.shared_case(func, nd=2, maxrows=8, pad=False)
+        d0, d1 = base.dims
+        layout = rnd.choice([[0, 0], [0, 0, 1], [0, 1, 0], [1, 0, 0], [0, 0, 0]])
+        dims = [(d0, d1)[k] for k in layout]
+        ishape = tuple(base.ishape[k] for k in layout)
+        case = cb.Case(dims, ishape, base.fact, base.weights if prop != "C02" else None, base.ignore, base.fmt, func)
+        objs = env.index_dims(cb.Case([d0, d1], base.ishape))
+        env.run_ccube(prop, case, idims=[objs[k] for k in layout], note="one index object in %d dimension positions" % layout.count(0))
+        if prop != "C02":
+            env.run_xcube(prop, case, note="one array in several dimension positions")
 
 
 def gen_c02_all(env, tier):
     gen_c02(env, tier)
+    gen_twin_dims(env, tier, "C02")
     gen_live(env, tier, "C02")
     gen_live(env, tier, "C02", with_axes=True)      # dimensions with two or three axes grow in place between evaluations
 
